@@ -7,6 +7,7 @@ import (
 	"strconv"
 	"strings"
 	"sync"
+	"sync/atomic"
 	"time"
 
 	"github.com/santhosh-tekuri/raft"
@@ -39,7 +40,16 @@ type Recorder struct {
 
 	// onNodeEvent, if set, sees every node record before it is written
 	// (directed scenarios use it to arm a crash at the point that follows)
-	onNodeEvent func(dir string, r *ev.Rec)
+	onNodeEvent atomic.Pointer[func(dir string, r *ev.Rec)]
+}
+
+// setOnNodeEvent installs (or, with nil, removes) the node event callback.
+func (rc *Recorder) setOnNodeEvent(fn func(dir string, r *ev.Rec)) {
+	if fn == nil {
+		rc.onNodeEvent.Store(nil)
+		return
+	}
+	rc.onNodeEvent.Store(&fn)
 }
 
 func newRecorder(path string) (*Recorder, error) {
@@ -98,8 +108,8 @@ func (rc *Recorder) emitNode(dir string, r *ev.Rec) int64 {
 		return 0
 	}
 	r.Cid, r.Nid, r.Inc = n.cid, n.nid, n.inc
-	if rc.onNodeEvent != nil {
-		rc.onNodeEvent(dir, r)
+	if fn := rc.onNodeEvent.Load(); fn != nil {
+		(*fn)(dir, r)
 	}
 	return rc.emit(r)
 }
